@@ -537,6 +537,25 @@ pub fn visit(ctx: &mut Ctx, node: &Node) -> Vec<Successor> {
         for a in nr.iter() {
             let _ = gs.trapped_animal_for_action(a);
         }
+        // the plain accessors of GameState / PlayPhase / PieceBoardState that are documented for the play phase
+        ctx.query = "accessors";
+        let pb = gs.piece_board();
+        let mut acc = gs.is_play_phase() as u64 + gs.is_p1_turn_to_move() as u64 + gs.move_number() as u64 + gs.current_step() as u64;
+        let pp2 = gs.unwrap_play_phase();
+        acc += pp2.step() as u64 + pp2.piece_trapped_this_turn() as u64 + pp2.previous_piece_boards().len() as u64 + pp2.hash_history().len() as u64;
+        acc += pps_code(pp2.push_pull_state()) as u64 + pp2.push_pull_state().as_possible_pull().is_some() as u64;
+        acc ^= pb.trapped_piece_bits() ^ pb.player_piece_mask(true) ^ pb.player_piece_mask(false);
+        for &p in PIECES.iter() {
+            acc ^= pb.bits_for_piece(p, true) ^ pb.bits_for_piece(p, false) ^ pb.bits_by_piece_type(p);
+        }
+        let mut occ = pb.all_pieces;
+        while occ != 0 {
+            let i = occ.trailing_zeros();
+            occ &= occ - 1;
+            acc += pb.piece_type_at_square(&Square::from_index(i as u8)).is_some() as u64;
+        }
+        acc += std_hash_of(gs) & 1;
+        std::hint::black_box(acc);
         ctx.query = "";
     }
 
